@@ -80,3 +80,20 @@ package export
 //@   free requires typeis(schema.Type, *schema_j5pb.RootSchema_Object) ==> as(*schema_j5pb.RootSchema_Object, schema.Type).Object != nil && propsOK(as(*schema_j5pb.RootSchema_Object, schema.Type).Object.Properties)
 //@   free requires typeis(schema.Type, *schema_j5pb.RootSchema_Oneof) ==> as(*schema_j5pb.RootSchema_Oneof, schema.Type).Oneof != nil && propsOK(as(*schema_j5pb.RootSchema_Oneof, schema.Type).Oneof.Properties)
 //@   free requires typeis(schema.Type, *schema_j5pb.RootSchema_Enum) ==> as(*schema_j5pb.RootSchema_Enum, schema.Type).Enum != nil && (forall i int {as(*schema_j5pb.RootSchema_Enum, schema.Type).Enum.Options[i]} :: 0 <= i && i < len(as(*schema_j5pb.RootSchema_Enum, schema.Type).Enum.Options) ==> as(*schema_j5pb.RootSchema_Enum, schema.Type).Enum.Options[i] != nil)
+
+// Methods: the request is always there; the response body is absent for methods that return a raw http
+// body, and both renderings must cope with that.
+//@ spec func methodOK(m *client_j5pb.Method) bool = m != nil && m.Request != nil && propsOK(m.Request.PathParameters) && propsOK(m.Request.QueryParameters)
+//@   | && (m.Request.Body != nil ==> propsOK(m.Request.Body.Properties)) && (m.ResponseBody != nil ==> propsOK(m.ResponseBody.Properties))
+//@ func fromProtoMethod
+//@   requires protoService != nil
+//@   free requires methodOK(protoMethod)
+//@   ensures result1 == nil ==> result0 != nil
+//@   loop 0 invariant out != nil && len(out.PathParameters) == len(protoMethod.Request.PathParameters) && protoMethod.Request != nil && propsOK(protoMethod.Request.PathParameters) && propsOK(protoMethod.Request.QueryParameters) && (protoMethod.ResponseBody != nil ==> propsOK(protoMethod.ResponseBody.Properties))
+//@   loop 1 invariant out != nil && len(out.QueryParameters) == len(protoMethod.Request.QueryParameters) && protoMethod.Request != nil && propsOK(protoMethod.Request.QueryParameters) && (protoMethod.ResponseBody != nil ==> propsOK(protoMethod.ResponseBody.Properties))
+//@ func (*Document).addMethod
+//@   requires dd != nil && service != nil
+//@   free requires methodOK(method)
+//@   loop 0 invariant operation != nil && method.Request != nil && propsOK(method.Request.PathParameters) && propsOK(method.Request.QueryParameters) && (method.Request.Body != nil ==> propsOK(method.Request.Body.Properties)) && (method.ResponseBody != nil ==> propsOK(method.ResponseBody.Properties))
+//@   loop 1 invariant operation != nil && method.Request != nil && propsOK(method.Request.QueryParameters) && (method.Request.Body != nil ==> propsOK(method.Request.Body.Properties)) && (method.ResponseBody != nil ==> propsOK(method.ResponseBody.Properties))
+//@ type *Document invariant dd: dd != nil && (forall i int {dd.Paths[i]} :: 0 <= i && i < len(dd.Paths) ==> dd.Paths[i] != nil)
